@@ -54,6 +54,15 @@ func fidelityCorpus(fe *fidEngine) {
 			Req:    level{PathP: []single{s1("ext", "")}}}
 		fe.runConfig(c, cf, 4)
 	})
+	// a jar cookie of the same name must not replace a configured cookie (request > client > jar)
+	e.Corpus("configured-cookie-beats-jar", func(c *ev.Case) {
+		cf := &config{Method: "GET", Tmpl: tmpl("/j"),
+			Client: level{Cookies: []single{s1("lang", "client-lang"), s1("sid", "client-sid")}},
+			Req:    level{Cookies: []single{s1("sid", "request-sid")}},
+			Jar:    []jarPre{{K: "sid", V: "jar-sid"}, {K: "lang", V: "jar-lang", Path: "/", API: 1}, {K: "other", V: "jar-other", API: 2}}}
+		fe.runConfig(c, cf, 4)
+	})
+	e.Corpus("struct-setters", func(c *ev.Case) { fe.runStructs(c) })
 	e.Corpus("precedence-all-kinds", func(c *ev.Case) {
 		cf := &config{Method: "POST", UseBase: true, Tmpl: tmpl("/p/", ":name"),
 			Client: level{Hdr: []multi{m1("X-Shared", 1, "c")}, Query: []multi{m1("q", 1, "c")},
